@@ -1,4 +1,5 @@
 import Goyang.Lemmas.Bridge
+import Goyang.Lemmas.BridgeRegistry
 import Goyang.Lemmas.Find
 import Goyang.Props.C07
 import Goyang.Props.C04
@@ -14,7 +15,8 @@ state (`Lemmas/BridgeTraverse.lean`: C04's traversal of `toEntry`, with the call
 that what is left are decidable predicates on the registry and on the statements loaded into it:
 
 * `Fuel.LoadedShape reg`  — sequence numbers are distinct and no (sub)module is bound in both
-  tables: what `Registry.add` produces (C01 states the same hypothesis);
+  tables (C01 states the same hypothesis): proved of every registry that `Registry.add` /
+  `loadAll` produce, whatever is loaded (`loaded_registry_shape`), so it is no hypothesis on the input;
 * `AugPosDistinct reg`    — the augment statements of one (sub)module stand at different positions
   of its text (true of every parsed text; two statements at one position would be one `Stmt` value);
 * `AugArgsPlain reg`      — every augment argument is an absolute schema node identifier: starts
@@ -114,6 +116,26 @@ theorem phaseInput_holds (reg : Registry) (opts : Opts) (plug : Plug) (hL : Load
     (h : phaseStart reg opts plug = some (s, order)) : PhaseInput reg s := by
   obtain ⟨rfl, _⟩ := phaseStart_eq reg opts plug s order h
   exact phaseInput_pstate0 reg opts plug hL hpos hplain
+
+/-- `LoadedShape` is what loading produces: of every list of statements loaded into a fresh
+registry (each load is one `Modules.add`; rejected loads leave the registry unchanged). -/
+theorem loaded_registry_shape (ss : List Stmt) : LoadedShape (Registry.loadAll ss).1 :=
+  loadedShape_loadAll ss
+
+/-- … and `ModsAreModules` holds when every loaded statement is a module / submodule statement. -/
+theorem loaded_registry_modules (ss : List Stmt) (h : ∀ s ∈ ss, isModKw s = true) :
+    ModsAreModules (Registry.loadAll ss).1 := by
+  intro m hm
+  rcases loadFrom_src ss {} m hm with h1 | h1
+  · simp at h1
+  · exact h m.stmt h1
+
+/-- `PhaseInput` for a loaded set of texts: only the two predicates on the augment statements remain. -/
+theorem phaseInput_holds_loaded (ss : List Stmt) (opts : Opts) (plug : Plug)
+    (hpos : AugPosDistinct (Registry.loadAll ss).1) (hplain : AugArgsPlain (Registry.loadAll ss).1)
+    (s : PState) (order : List Nat) (h : phaseStart (Registry.loadAll ss).1 opts plug = some (s, order)) :
+    PhaseInput (Registry.loadAll ss).1 s :=
+  phaseInput_holds _ opts plug (loadedShape_loadAll ss) hpos hplain s order h
 
 /-! ### `NoDupNames` -/
 
